@@ -190,7 +190,7 @@ func (e *FnEnc) instrEnv(b *ssa.BasicBlock, idx int) *specEnv {
 					if tv, isVar := dr.Object().(*types.Var); !isVar || tv.IsField() { // a selector x.f also has a DebugRef, for the FIELD object f
 						continue
 					}
-					if _, have := e.vals[dr.X]; !have {
+					if _, have := e.vals[dr.X]; !have || !debugRefIsTheVariable(dr) {
 						continue
 					}
 					if dr.IsAddr {
@@ -210,6 +210,22 @@ func (e *FnEnc) instrEnv(b *ssa.BasicBlock, idx int) *specEnv {
 	return env
 }
 
+// A debug reference for an identifier used where a conversion is implied (`Body: body` with an interface-typed
+// field) carries the CONVERTED value; only references whose value has the variable's own type denote the variable.
+func debugRefIsTheVariable(dr *ssa.DebugRef) bool {
+	obj := dr.Object()
+	if obj == nil || dr.X == nil {
+		return false
+	}
+	if dr.IsAddr {
+		if pt, ok := dr.X.Type().Underlying().(*types.Pointer); ok {
+			return types.Identical(pt.Elem(), obj.Type())
+		}
+		return false
+	}
+	return types.Identical(dr.X.Type(), obj.Type())
+}
+
 func lookupInBlock(e *FnEnc, b *ssa.BasicBlock, idx int, name string) (Val, bool) {
 	{
 		for i := idx - 1; i >= 0; i-- {
@@ -219,7 +235,7 @@ func lookupInBlock(e *FnEnc, b *ssa.BasicBlock, idx int, name string) (Val, bool
 					if tv, isVar := x.Object().(*types.Var); !isVar || tv.IsField() {
 						continue
 					}
-					if _, have := e.vals[x.X]; !have {
+					if _, have := e.vals[x.X]; !have || !debugRefIsTheVariable(x) {
 						continue
 					}
 					if x.IsAddr {
